@@ -147,8 +147,16 @@ def tracker_operator(run, prog, cls, rule, prefix):
         """t is, on every arm, a tracker constructed right here (not an object that existed before)."""
         leaves = strip_gates(t)
         return bool(leaves) and all(x[0] == "new" and x[2] in tracker_quals for x in leaves)
+    owners = {}
     for f in trackers:
         t = s.fields.get(f)
+        if t in owners:
+            # one creation site, two fields: the very same object
+            run.fail(rule, f"{prefix}.copy.{f}", f"{s.path}:{s.fn.lineno}", fq, f"self.{f} is self.{owners[t]}",
+                     f"every estimate tracker must be an independent deep copy of the one base tracker; self.{f} and "
+                     f"self.{owners[t]} are the same object (a shared object would be updated through several fields)")
+            continue
+        owners[t] = f
         inner, via_mv = t, False
         if inner[0] == "new" and inner[2].endswith("MultiValueTracker"):
             pos, kw = new_items(inner)
